@@ -40,7 +40,13 @@ def load(config):
             files_present.add(link.span_file_line(a["span"])[0])
         for i in c.impls:
             files_present.add(link.span_file_line(i["span"])[0])
-    w.expected_decls = [d for d in w.decls if link.relfile(d.file) in files_present]
+    # definitions inside a `#[cfg(test)]` module of a library file are fixtures of the library's own unit tests; they
+    # exist only in its test build, which is not modelled (it duplicates the library)
+    def lib_unit_test_fixture(d):
+        rf = link.relfile(d.file)
+        in_tests_dir = rf.startswith("tests/") or "/tests/" in rf
+        return (not in_tests_dir) and any("test" in c for c in (d.cfg_ctx or []))
+    w.expected_decls = [d for d in w.decls if link.relfile(d.file) in files_present and not lib_unit_test_fixture(d)]
     w.pairs, w.un_d, w.un_q = link.link(w.expected_decls, w.qtypes)
     w.by_path = {q.path: q for q in w.qtypes}
     w.decl_of = {q.path: d for d, q in w.pairs}
